@@ -3,6 +3,8 @@ package vlib
 import (
 	"fmt"
 	"math"
+	"sync"
+	"time"
 )
 
 // Poison64 returns the i-th poison value: a quiet NaN with a distinct payload.
@@ -160,3 +162,31 @@ func (l *LCG) Next() uint64 {
 
 // Small returns a small integer in [-k, k].
 func (l *LCG) Small(k int) int { return int(l.Next()%uint64(2*k+1)) - k }
+
+var atomMu sync.Mutex
+
+// Atomically runs f under a process-wide real mutex. Harness callbacks that
+// are invoked from several goroutines use it to update their own bookkeeping,
+// so that the free-running -race pass reports only races of the code under test.
+func Atomically(f func()) {
+	atomMu.Lock()
+	defer atomMu.Unlock()
+	f()
+}
+
+// RunWithWatchdog runs body in its own goroutine and waits for it for at
+// most d. It returns the recovered panic value, if any, and whether the
+// watchdog expired (the goroutine is then abandoned).
+func RunWithWatchdog(body func(), d time.Duration) (panicked any, timedOut bool) {
+	done := make(chan any, 1)
+	go func() {
+		defer func() { done <- recover() }()
+		body()
+	}()
+	select {
+	case e := <-done:
+		return e, false
+	case <-time.After(d):
+		return nil, true
+	}
+}
